@@ -16,3 +16,8 @@ OBS.append(Ob(['C12'], 'pnum_long_negexp', 'numcut', 'harness/pnum_big.c', 'h_pn
 for nz in (154,):
     OBS.append(Ob(['C12', 'C13'], 'pnum_many_digits_%d' % (nz + 1), 'numcut', 'harness/pnum_big.c', 'h_pnum_many_digits', defs=['NZ=%d' % nz], unwind=nz + 12, cap=600, hunwind=nz + 12, validate=2,
               desc="literal '1' + %d zeros + e-DD: scaled pair of the right magnitude (the count of dropped digits does not wrap)" % nz, bound='all 100 exponents; the %d-digit mantissa is concrete' % (nz + 1)))
+
+# ---- NaN / Infinity configuration: same scanner obligation on a unit built with ARDUINOJSON_ENABLE_NAN=1, ARDUINOJSON_ENABLE_INFINITY=1
+UNITS.append(Unit('numcut_nan', 'wrappers/num.cpp', defs=['ARDUINOJSON_ENABLE_NAN=1', 'ARDUINOJSON_ENABLE_INFINITY=1'], cuts={'CUT_MF_F': r'10make_floatIfiE', 'CUT_MF_D': r'10make_floatIdiE'}))
+OBS.append(Ob(['C10', 'C12'], 'pnum_scan_n5_naninf', 'numcut_nan', 'harness/pnum.c', 'h_pnum_scan', defs=['NB=5', 'NANINF=1', 'UNIT_H="numcut_nan.h"'], unwind=8, cap=600, hunwind=12,
+              desc='parseNumber in the NaN+Infinity build on every string of 5 bytes: sign? n/N.. is NaN, sign? i/I.. is the signed infinity, every other string exactly as in the default build (grammar, exact mantissa/exponent, overflow shortcut)', bound='all 2^40 5-byte strings (NUL anywhere)'))
